@@ -1,5 +1,6 @@
 SPECIFICATION Spec
 CONSTANTS
+  KEYBYSENT = FALSE
   OORD <- c_OORD
   AORD <- c_AORD18
   AVSORD <- c_AVSORD
